@@ -157,6 +157,9 @@ type Engine struct {
 	frame *frame
 	globalOrder []types.Object
 	strLitOrder []string
+	numeral bool
+	digitsDefined map[string]bool
+	numLitDone map[string]bool
 	loopFrames []*frame
 	epochLoopFrames map[int][]*frame
 	clauseState *State
@@ -1189,6 +1192,9 @@ func (e *Engine) strLit(s string) T {
 	}
 	e.strLitOrder = append(e.strLitOrder, s)
 	e.assumeGlobal(And(fs...), "string literal")
+	if e.numeral {
+		e.numeralLit(t)
+	}
 	return t
 }
 
